@@ -29,6 +29,7 @@ type c06Case struct {
 	CPkts   []c06Pkt `json:"client_packets"`
 	HWrites []int    `json:"host_writes"`
 	Sched   []bool   `json:"schedule"` // true = client sends next packet, false = host writes next chunk
+	Group   []int    `json:"group"`    // client packets i..i+Group[i]-1 travel in one transport unit (one websocket message / one write of HTTP chunks)
 }
 
 var c06Sizes = []int{0, 1, 2, 3, 100, 1000, 4084, 4085, 4086, 4087, 4088, 4096, 8192, 16384, 65534, 65535}
@@ -89,6 +90,12 @@ func genC06(t *rapid.T, maxTotal int) c06Case {
 	}
 	for i := 0; i < len(c.CPkts)+len(c.HWrites); i++ {
 		c.Sched = append(c.Sched, rapid.Bool().Draw(t, "who"))
+	}
+	if rapid.IntRange(0, 2).Draw(t, "grouped") == 0 {
+		for i := range c.CPkts {
+			_ = i
+			c.Group = append(c.Group, rapid.IntRange(1, 4).Draw(t, "group"))
+		}
 	}
 	return c
 }
@@ -195,6 +202,7 @@ func runC06On(c c06Case, o gwOpts, tgt gwc.Target) *Violation {
 			}
 		}
 	}
+	legacyGroups := map[int][][]byte{}
 	var hchunks [][]byte
 	for _, n := range c.HWrites {
 		ch := streamBytes(c.HSeed, hoff, n)
@@ -214,12 +222,48 @@ func runC06On(c c06Case, o gwOpts, tgt gwc.Target) *Violation {
 		}
 		hdone <- e
 	}()
+	// coalesce client packets into transport units
+	if len(c.Group) > 0 {
+		var grouped [][]byte
+		for i := 0; i < len(cunits); {
+			n := 1
+			if i < len(c.Group) && c.Group[i] > 1 {
+				n = c.Group[i]
+			}
+			if i+n > len(cunits) {
+				n = len(cunits) - i
+			}
+			if lg, ok := conn.(*gwc.Legacy); ok && n > 1 {
+				grouped = append(grouped, nil) // marker: sent through SendChunks below
+				grp := cunits[i : i+n]
+				legacyGroups[len(grouped)-1] = grp
+				_ = lg
+			} else {
+				var u []byte
+				for _, x := range cunits[i : i+n] {
+					u = append(u, x...)
+				}
+				grouped = append(grouped, u)
+			}
+			i += n
+		}
+		cunits = grouped
+	}
+	sendUnit := func(i int) error {
+		if g, ok := legacyGroups[i]; ok {
+			lg := conn.(*gwc.Legacy)
+			err := lg.SendChunks(g)
+			lg.SyncPeer()
+			return err
+		}
+		return conn.Send(cunits[i])
+	}
 	ci, hi := 0, 0
 	var sendErr error
 	for _, who := range c.Sched {
 		if who && ci < len(cunits) {
 			if sendErr == nil {
-				sendErr = conn.Send(cunits[ci])
+				sendErr = sendUnit(ci)
 			}
 			ci++
 		} else if !who && hi < len(hchunks) {
@@ -229,7 +273,7 @@ func runC06On(c c06Case, o gwOpts, tgt gwc.Target) *Violation {
 	}
 	for ; ci < len(cunits); ci++ {
 		if sendErr == nil {
-			sendErr = conn.Send(cunits[ci])
+			sendErr = sendUnit(ci)
 		}
 	}
 	for ; hi < len(hchunks); hi++ {
@@ -310,6 +354,9 @@ func classifyC06(c c06Case) (bool, []string) {
 	}
 	if ct > 0 && ht > 0 {
 		cl = append(cl, "bidirectional")
+	}
+	if len(c.Group) > 0 {
+		cl = append(cl, "coalesced-units")
 	}
 	return ct > 4086 || ht > 4086 || mism || boundary || (ct > 0 && ht > 0), cl
 }
